@@ -140,7 +140,7 @@ def mk_item(it, st, tid):
     return Top(tid, "x")
 
 
-def describe_adaptor_result(it, shape, item, fo):
+def describe_adaptor_result(it, shape, item, fo, check_char=True, check_len=True):
     """None if the adaptor result is the expected per-item transformation, else a reason."""
     if fo.outcome[0] != "return":
         return "adaptor outcome %r" % (fo.outcome[0],)
@@ -159,14 +159,18 @@ def describe_adaptor_result(it, shape, item, fo):
     if not (isinstance(dc, Agg) and len(dc.fields) == 2):
         return "the item is not a DecodedChar: %r" % (dc,)
     if isinstance(item, Sym):
-        if dc.fields[0] != item:
+        if check_char and dc.fields[0] != item:
             return "the character is altered: %r" % (dc.fields[0],)
         want = Expr("len_utf8", (item,), (64, False))
-        if dc.fields[1] != want:
+        if check_len and dc.fields[1] != want:
             return "the recorded length is not the character's UTF-8 length: %r" % (dc.fields[1],)
         return None
     if isinstance(item, Agg):  # already a DecodedChar: identity
-        return None if dc == item else "the decoded character is altered: %r" % (dc,)
+        if check_char and dc.fields[0] != item.fields[0]:
+            return "the decoded character is altered: %r" % (dc,)
+        if check_len and dc.fields[1] != item.fields[1]:
+            return "the length of the decoded character is altered: %r" % (dc,)
+        return None
     return "unrecognised item %r" % (item,)
 
 
@@ -209,7 +213,7 @@ def run_tail(it, o, shape_value):
     return it.run(s2)
 
 
-def describe_tail(it, root, kind, name, payload, outs, parser_ref, o):
+def describe_tail(it, root, kind, name, payload, outs, parser_ref, o, verdict_only=False):
     """None when the entry point turns the core's result `name` into the documented result, else the reason."""
     P = it.p
     rets = [x for x in outs if x.outcome and x.outcome[0] == "return"]
@@ -241,6 +245,8 @@ def describe_tail(it, root, kind, name, payload, outs, parser_ref, o):
     # errors
     if rv.variant != 1:
         return "the core's %s becomes Ok: %r" % (name, rv)
+    if verdict_only:
+        return None  # an error stays an error: the verdict is the core's
     e = rv.fields[0]
     if not isinstance(e, Agg):
         return "error value not constructed: %r" % (e,)
